@@ -53,7 +53,7 @@ func (c *asyncClient) fail(oracle, where, msg string) {
 	c.fails = append(c.fails, Failure{Oracle: oracle, Sig: "C15/" + oracle + "/" + where, Props: []string{"C15"}, Msg: msg})
 }
 
-var asyncScenarios = []string{"foreach-list", "foreach-object", "map-list", "map-object", "readers-mixed", "readers-same"}
+var asyncScenarios = []string{"foreach-list", "foreach-object", "map-list", "map-object", "readers-mixed", "readers-same", "calls-between-mutations"}
 
 func runAsync(ch *simrt.Chooser, opt Options) RunResult {
 	res := RunResult{Counters: map[string]int{}}
@@ -73,7 +73,7 @@ func runAsync(ch *simrt.Chooser, opt Options) RunResult {
 	cfg.PCTHorizon = []int{30, 80, 200, 500}[ch.Draw("pct-horizon", 4)]
 	cfg.StallPermille = []int{0, 0, 20, 200}[ch.Draw("stall-rate", 4)]
 	cfg.KeyOrder = simrt.KeyPolicy(ch.Draw("key-order", int(simrt.NumKeyPolicies)))
-	scen := []int{0, 1, 2, 3, 4, 4, 5, 5}[ch.Draw("scenario", 8)]
+	scen := []int{0, 1, 2, 3, 4, 4, 5, 5, 6}[ch.Draw("scenario", 9)]
 	if opt.Scenario >= 0 {
 		scen = opt.Scenario
 	}
@@ -219,6 +219,61 @@ func runAsync(ch *simrt.Chooser, opt Options) RunResult {
 			doMapAsync(s, top, c, f, nm)
 			if after := canon(c, nm); after != before {
 				top.fail("receiver-changed", asyncScenarios[scen], "MapAsync/Map changed the receiver: "+short(before, 200)+" -> "+short(after, 200))
+			}
+		case 6:
+			// one container, asynchronous calls with sequential mutations between them: whatever a call prepares and keeps
+			// inside the container (a dispatch plan, a snapshot of keys) has to follow Set/Unset/Clear/Add/Pop/… before the next call
+			width = 2 + s.Draw("small-width", 10)
+			exact = 0
+			c := plainBuild(s.Draw("mutated-kind", 2) == 0, s)
+			rounds := 2 + s.Draw("rounds", 4)
+			for r := 0; r < rounds; r++ {
+				nm := nameHeap(c)
+				before := canon(c, nm)
+				trace = append(trace, fmt.Sprintf("round %d: %s", r, short(before, 200)))
+				if s.Draw("round-call", 2) == 0 {
+					doForEachAsync(s, top, c, 10+r, false)
+				} else {
+					doMapAsync(s, top, c, s.Draw("pure-fn", len(pureFns)), nm)
+				}
+				if after := canon(c, nm); after != before {
+					top.fail("receiver-changed", asyncScenarios[scen], "an asynchronous call changed its receiver: "+short(before, 200)+" -> "+short(after, 200))
+					break
+				}
+				for m, k := 0, 1+s.Draw("mutations", 6); m < k; m++ {
+					switch x := c.(type) {
+					case at.List:
+						n := x.Count()
+						switch op := s.Draw("list-mutation", 8); {
+						case op == 0 && n > 0:
+							x.Pop()
+						case op == 1 && n > 0:
+							x.Replace(s.Draw("at", n), genScalar(s))
+						case op == 2:
+							x.Insert(s.Draw("at", n+1), genScalar(s))
+						case op == 3 && n > 0:
+							x.Delete(s.Draw("at", n))
+						case op == 4 && s.Draw("clear", 3) == 0:
+							x.Clear()
+						case op == 5:
+							x.Reverse()
+						default:
+							x.Add(genScalar(s))
+						}
+					case at.Object:
+						keys := sortedKeys(x)
+						switch op := s.Draw("object-mutation", 6); {
+						case op == 0 && len(keys) > 0:
+							x.Unset(keys[s.Draw("key", len(keys))])
+						case op == 1 && len(keys) > 0:
+							x.Set(keys[s.Draw("key", len(keys))], genScalar(s))
+						case op == 2 && s.Draw("clear", 2) == 0:
+							x.Clear()
+						default:
+							x.Set("m"+strconv.Itoa(s.Draw("new-key", 12)), genScalar(s))
+						}
+					}
+				}
 			}
 		case 4, 5:
 			clients = append(clients, readers(s, top, scen == 5, &trace)...)
